@@ -1,0 +1,61 @@
+// SPDX-License-Identifier: Apache-2.0
+//! Hook `c05-checkpoint-parts` (C05, C07): mutable access to every retained field of a
+//! `WorldlineState` (the `state` of a `ReplayCheckpoint`) and to the stored digest of a
+//! `WarpTickPatchV1`, so that an external harness can hand `add_checkpoint` a checkpoint with ONE
+//! altered retained field. Add-only accessors; no logic of their own.
+use std::collections::BTreeSet;
+
+use crate::head::WriterHeadKey;
+use crate::ident::{Hash, NodeKey};
+use crate::ident::TypeId;
+use crate::materialization::{ChannelConflict, FinalizedChannel, MaterializationErrorKind};
+use crate::receipt::TickReceipt;
+use crate::snapshot::Snapshot;
+use crate::tick_patch::WarpTickPatchV1;
+use crate::warp_state::WarpState;
+use crate::worldline_state::WorldlineState;
+
+/// Mutable view of every field of a [`WorldlineState`].
+pub struct StateParts<'a> {
+    pub warp_state: &'a mut WarpState,
+    pub root: &'a mut NodeKey,
+    pub initial_state: &'a mut WarpState,
+    pub last_snapshot: &'a mut Option<Snapshot>,
+    pub tick_history: &'a mut Vec<(Snapshot, TickReceipt, WarpTickPatchV1)>,
+    pub last_materialization: &'a mut Vec<FinalizedChannel>,
+    pub last_materialization_errors: &'a mut Vec<ChannelConflict>,
+    pub tx_counter: &'a mut u64,
+    pub committed_ingress: &'a mut BTreeSet<(WriterHeadKey, Hash)>,
+}
+
+pub fn state_parts(w: &mut WorldlineState) -> StateParts<'_> {
+    StateParts {
+        warp_state: &mut w.warp_state,
+        root: &mut w.root,
+        initial_state: &mut w.initial_state,
+        last_snapshot: &mut w.last_snapshot,
+        tick_history: &mut w.tick_history,
+        last_materialization: &mut w.last_materialization,
+        last_materialization_errors: &mut w.last_materialization_errors,
+        tx_counter: &mut w.tx_counter,
+        committed_ingress: &mut w.committed_ingress,
+    }
+}
+
+pub fn tx_counter(w: &WorldlineState) -> u64 {
+    w.tx_counter
+}
+
+pub fn committed_ingress_len(w: &WorldlineState) -> usize {
+    w.committed_ingress.len()
+}
+
+/// A `ChannelConflict` value (its constructor types are not all re-exported at the crate root).
+pub fn channel_conflict(channel: Hash, emission_count: usize) -> ChannelConflict {
+    ChannelConflict { channel: TypeId(channel), emission_count, kind: MaterializationErrorKind::StrictSingleConflict }
+}
+
+/// Overwrite only the stored `digest` field of a replay patch (contents untouched).
+pub fn set_patch_digest(p: &mut WarpTickPatchV1, d: Hash) {
+    p.echo_verif_set_digest(d);
+}
